@@ -75,6 +75,18 @@ Definition split_dataset {A B} (X : list A) (y : list B) (k_test : nat) (k_val :
   | _, _ => None
   end.
 
+(* Argument forms of `shuffle`.  The code tests `if shuffle:` — Python truthiness — so every falsy value (False,
+   np.bool_(False), 0) keeps the original order and every truthy one (True, np.bool_(True), a non-zero int) shuffles with
+   NumPy's global generator (the permutation is the oracle input; it is ignored when the argument is falsy). *)
+Inductive shuffle_arg := SBool (b : bool) | SNpBool (b : bool) | SInt (z : Z).
+
+Definition truthy (a : shuffle_arg) : bool :=
+  match a with SBool b => b | SNpBool b => b | SInt z => negb (z =? 0)%Z end.
+
+Definition split_dataset_a {A B} (X : list A) (y : list B) (k_test : nat) (k_val : option nat)
+           (a : shuffle_arg) (perm : list nat) : option (split_result A B) :=
+  split_dataset X y k_test k_val (if truthy a then Some perm else None).
+
 (* ---------------------------------------------------------------- one_hot_encode (data.py:47-56) *)
 
 (* np.unique on integer labels: sorted, distinct (insertion into a strictly increasing list) *)
